@@ -825,6 +825,9 @@ class Consumer(object):
         if not (self._stopping and failure.check(CancelledError)):
             if self._start_d:  # Make sure we're not already stopped
                 self._start_d.errback(failure)
+            # Let _process_messages() know: it must not deliver (and so
+            # mark as processed) anything beyond the block that failed
+            return failure
 
     def _handle_fetch_error(self, failure):
         """A fetch request resulted in an error. Retry after our current delay
@@ -1019,7 +1022,13 @@ class Consumer(object):
                 d.cancel()
                 break
             else:
-                yield d
+                try:
+                    yield d
+                except Exception:
+                    # The processor failed (reported by _handle_processor_error).
+                    # Leave the block unfinished: nothing more may be delivered
+                    # or counted as processed until the consumer is restarted.
+                    return
                 proc_block_begin = proc_block_end
                 proc_block_end += proc_block_size
 
